@@ -24,6 +24,33 @@ def main():
     cache = os.path.join(VERIF, "build", "fuzzcache")
     os.makedirs(cache, exist_ok=True)
     env = dict(os.environ, VERIF_SCRATCH=rundir)
+    res = {"execs": 0, "new_interesting": 0, "crasher": None, "case": None}
+    case = os.path.join(outdir, "native-fuzz-case.json")
+    # phase 1: the seed corpus as plain sub-tests (a failing or fatal seed is not saved by the fuzzer)
+    try:
+        sr = subprocess.run([binary, "-test.run", "^FuzzEngineParse$", "-test.v", "-test.timeout", "20m"], cwd=rundir, env=env,
+                            capture_output=True, text=True, timeout=1500)
+        sout = sr.stdout + sr.stderr
+    except subprocess.TimeoutExpired as e:
+        sr, sout = None, "timeout"
+    if sr is None or sr.returncode != 0:
+        bad = re.findall(r"--- FAIL: FuzzEngineParse/seed#(\d+)", sout)
+        if not bad:
+            runs = re.findall(r"=== RUN\s+FuzzEngineParse/seed#(\d+)", sout)
+            bad = runs[-1:]  # the process died in the last seed it started
+        if not bad:
+            res["error"] = "seed corpus run failed: " + sout[-400:]
+            print(json.dumps(res)); return 2
+        res["failing_seed"] = int(bad[0])
+        c = subprocess.run([binary, "-test.run", "^TestFuzzSeedToCase$"], cwd=VERIF,
+                           env=dict(os.environ, VERIF_FUZZ_SEED=bad[0], VERIF_FAIL_OUT=case), capture_output=True, text=True)
+        if c.returncode == 0 and os.path.exists(case):
+            res["case"] = case
+            print(json.dumps(res)); return 0
+        res["error"] = "seed %s fails but could not be converted: %s" % (bad[0], (c.stdout + c.stderr)[-300:])
+        print(json.dumps(res)); return 2
+    res["seeds_passed"] = len(re.findall(r"--- PASS: FuzzEngineParse/seed#", sout))
+    # phase 2: coverage-guided fuzzing
     cmd = [binary, "-test.run", "^$", "-test.fuzz", "^FuzzEngineParse$", "-test.fuzztime=%ds" % secs,
            "-test.fuzzcachedir=" + cache, "-test.parallel=%d" % (os.cpu_count() or 8), "-test.timeout", "0"]
     try:
@@ -31,14 +58,13 @@ def main():
         out = r.stdout + r.stderr
     except subprocess.TimeoutExpired as e:
         print(json.dumps({"error": "fuzz run exceeded its time budget"})); return 2
-    res = {"execs": 0, "new_interesting": 0, "crasher": None, "case": None, "log_tail": out[-1500:]}
+    res["log_tail"] = out[-1500:]
     for m in re.finditer(r"execs: (\d+).*?new interesting: (\d+) \(total: (\d+)\)", out):
         res["execs"], res["new_interesting"], res["corpus_total"] = int(m.group(1)), int(m.group(2)), int(m.group(3))
     m = re.search(r"Failing input written to (\S+)", out)
     if m:
         crasher = os.path.join(rundir, m.group(1))
         res["crasher"] = crasher
-        case = os.path.join(outdir, "native-fuzz-case.json")
         c = subprocess.run([binary, "-test.run", "^TestFuzzCrasherToCase$"], cwd=VERIF,
                            env=dict(os.environ, VERIF_FUZZ_CRASHER=crasher, VERIF_FAIL_OUT=case), capture_output=True, text=True)
         if c.returncode == 0 and os.path.exists(case):
